@@ -22,8 +22,10 @@
 (*   "impl_hasloc"     (D14) has_location returns True from the `invalid contig` handler          *)
 (*   "mut_ign_listed" / "mut_record_snv"  mutation controls (seeded changes C18-m1 / C18-m4): the  *)
 (*                     informative-site procedure looks at the alleles LISTED in the record       *)
-(*   "impl_cachekey"   the cache file name is <contig>[_<samples>].tsv.gz: ignore_conversions is  *)
-(*                     not part of it, a run with another setting reads a foreign table          *)
+(*   "mut_unphased_alts"  mutation control (seeded change C18-r2m4): the unphased branch tests     *)
+(*                     only the ALT alleles for being single-base                                *)
+(*   "impl_cachekey"   the cache file name is <contig>[_<samples>].tsv.gz: ignore_conversions and *)
+(*                     phased are not part of it, a run with another setting reads a foreign table *)
 EXTENDS AlleleRules, TLC, Json
 
 CONSTANTS Contigs, AbsentContigs, NoCacheContigs, Positions, Samples,
@@ -38,14 +40,26 @@ GTMenu == IF GTSet = "tiny" THEN { <<"C", "C">>, <<"T", "T">> }
           ELSE { <<"C", "C">>, <<"T", "T">>, <<".", ".">>, <<"C", "T">>, <<"T", "GT">>, <<"GT">> }
 NoSite == [ref |-> "-", alts |-> <<>>, gt |-> [s \in Samples |-> <<>>]]
 (* every record lists a multi-base ALT (GT) and a second SNV ALT (G) that may be carried by nobody *)
-SiteMenu == { [ref |-> "C", alts |-> <<"T", "GT", "G">>, gt |-> g] : g \in [Samples -> GTMenu] } \cup {NoSite}
+(* plus, in the full menu, pure SNV records (C>T and C>T,G) and a deletion record (REF = CA, ALT = C) *)
+SnvGT == { <<"C", "C">>, <<"T", "T">>, <<"C", "T">> }
+DelGT == { <<"C", "C">>, <<"CA", "CA">>, <<".", ".">> }
+ExtraSites == IF GTSet # "full" THEN {}
+              ELSE { [ref |-> "C", alts |-> a, gt |-> g] : a \in { <<"T">>, <<"T", "G">> }, g \in [Samples -> SnvGT] }
+                   \cup { [ref |-> "CA", alts |-> <<"C">>, gt |-> g] : g \in [Samples -> DelGT] }
+SiteMenu == { [ref |-> "C", alts |-> <<"T", "GT", "G">>, gt |-> g] : g \in [Samples -> GTMenu] } \cup ExtraSites \cup {NoSite}
 SelAll == [explicit |-> FALSE, s |-> {}]
 SelOne == [explicit |-> TRUE, s |-> {CHOOSE s \in Samples : TRUE}]
 SelBoth == [explicit |-> TRUE, s |-> Samples]
-Configs == CASE ConfigSet = "one" -> { [sel |-> SelAll, ign |-> {}] }
-             [] ConfigSet = "ign" -> { [sel |-> SelAll, ign |-> {}], [sel |-> SelAll, ign |-> {<<"C", "T">>}] }
-             [] ConfigSet = "sel" -> { [sel |-> SelAll, ign |-> {}], [sel |-> SelOne, ign |-> {}], [sel |-> SelBoth, ign |-> {}] }
-             [] ConfigSet = "all" -> { [sel |-> x, ign |-> y] : x \in {SelAll, SelOne}, y \in {{}, {<<"C", "T">>}, {<<"C", "G">>}} }
+(* ph = the constructor argument `phased` (TRUE: every sample is a haplotype; FALSE: allele letters U, V, ..) *)
+Configs == CASE ConfigSet = "one" -> { [sel |-> SelAll, ign |-> {}, ph |-> TRUE] }
+             [] ConfigSet = "ign" -> { [sel |-> SelAll, ign |-> {}, ph |-> TRUE], [sel |-> SelAll, ign |-> {<<"C", "T">>}, ph |-> TRUE] }
+             [] ConfigSet = "sel" -> { [sel |-> SelAll, ign |-> {}, ph |-> TRUE], [sel |-> SelOne, ign |-> {}, ph |-> TRUE],
+                                       [sel |-> SelBoth, ign |-> {}, ph |-> TRUE] }
+             [] ConfigSet = "all" -> { [sel |-> x, ign |-> y, ph |-> TRUE] : x \in {SelAll, SelOne}, y \in {{}, {<<"C", "T">>}, {<<"C", "G">>}} }
+             [] ConfigSet = "phase" -> { [sel |-> SelAll, ign |-> {}, ph |-> TRUE], [sel |-> SelAll, ign |-> {}, ph |-> FALSE],
+                                         [sel |-> SelAll, ign |-> {<<"C", "T">>}, ph |-> FALSE] }
+             [] ConfigSet = "allph" -> { [sel |-> x, ign |-> y, ph |-> z] : x \in {SelAll, SelOne}, y \in {{}, {<<"C", "T">>}, {<<"C", "G">>}},
+                                                                           z \in BOOLEAN }
 QBases == {"C", "T"}
 
 VARIABLES vcf,      \* [Contigs -> [Positions -> SiteMenu]]
@@ -62,17 +76,20 @@ vars == <<vcf, run, cfg, loaded, cache, pend, badTruth, badEq, nruns, nops, hist
 
 ---------------------------------------------------------------------------------------------------
 (* tables: sets of <<pos, base, samples>> *)
-Store(site, cf) == CASE Variant = "mut_ign_listed" -> StoreCodeIgnListed(site, cf.sel, cf.ign)
+UStore(site, cf) == IF Variant = "mut_unphased_alts" THEN UStoreCodeAltsOnly(site, cf.ign) ELSE UStoreCode(site, cf.ign)
+Store(site, cf) == CASE ~cf.ph -> UStore(site, cf)
+                     [] Variant = "mut_ign_listed" -> StoreCodeIgnListed(site, cf.sel, cf.ign)
                      [] Variant = "mut_record_snv" -> StoreCodeRecordSNV(site, cf.sel, cf.ign)
                      [] OTHER -> StoreCode(site, cf.sel, cf.ign)
-TableOf(c, cf) == { <<p, b, Carriers(vcf[c][p], cf.sel, b)>> :
+Answers(site, cf, b) == IF cf.ph THEN Carriers(site, cf.sel, b) ELSE ULetters(site, b)
+TableOf(c, cf) == { <<p, b, Answers(vcf[c][p], cf, b)>> :
                         p \in { q \in Positions : vcf[c][q] # NoSite /\ Store(vcf[c][q], cf) },
                         b \in Bases } \ { <<p, b, {}>> : p \in Positions, b \in Bases }
 LookupT(T, p, b) == IF \E t \in T : t[1] = p /\ t[2] = b THEN (CHOOSE t \in T : t[1] = p /\ t[2] = b)[3] ELSE {}
 HasT(T, p) == \E t \in T : t[1] = p
 NotLoaded == [in |-> FALSE, tab |-> {}]
 Cacheable(c) == c \notin NoCacheContigs
-Key(c, cf) == <<c, cf.sel, IF Variant = "impl_cachekey" THEN {} ELSE cf.ign>>
+Key(c, cf) == <<c, cf.sel, IF Variant = "impl_cachekey" THEN {} ELSE cf.ign, IF Variant = "impl_cachekey" THEN TRUE ELSE cf.ph>>
 NoPend == [op |-> "none", c |-> "-", p |-> 0, b |-> "-", stage |-> "-", exc |-> FALSE]
 
 Init == /\ vcf \in [Contigs -> [Positions -> SiteMenu]]
@@ -142,8 +159,10 @@ EagerTab(c, cf) == IF c \in Contigs THEN TableOf(c, cf) ELSE {}
 (* P-level: the answer is what the VCF says (definition in AlleleRules) *)
 TruthOK(q, ans, has) ==
     LET site == SiteAt(q.c, q.p) IN
-    IF q.op = "get" THEN (IF site = NoSite THEN ans = {} ELSE AnswerOK(site, cfg.sel, cfg.ign, q.b, ans))
-    ELSE (IF site = NoSite THEN has = FALSE ELSE HasLocOK(site, cfg.sel, cfg.ign, has))
+    IF q.op = "get" THEN (IF site = NoSite THEN ans = {}
+                          ELSE IF cfg.ph THEN AnswerOK(site, cfg.sel, cfg.ign, q.b, ans) ELSE UAnswerOK(site, cfg.ign, q.b, ans))
+    ELSE (IF site = NoSite THEN has = FALSE
+          ELSE IF cfg.ph THEN HasLocOK(site, cfg.sel, cfg.ign, has) ELSE UHasLocOK(site, cfg.ign, has))
 (* ... and the same as an eager instance with the same configuration gives (also on "either" sites) *)
 EqOK(q, ans, has) ==
     IF q.op = "get" THEN ans = LookupT(EagerTab(q.c, cfg), q.p, q.b) ELSE has = HasT(EagerTab(q.c, cfg), q.p)
@@ -180,14 +199,14 @@ Inv_C18_Truth == ~badTruth
 Inv_C18_ModeEq == ~badEq
 
 (* a published cache file always holds the complete table of its key *)
-Inv_C18_CacheSound == \A k \in DOMAIN cache : cache[k] = TableOf(k[1], [sel |-> k[2], ign |-> k[3]])
+Inv_C18_CacheSound == \A k \in DOMAIN cache : cache[k] = TableOf(k[1], [sel |-> k[2], ign |-> k[3], ph |-> k[4]])
 
 (* the code's informative-site procedure realises the P-level classification *)
 Inv_C18_RuleAgrees ==
     nruns = 0 =>        \* depends on the VCF only: evaluated in the initial states
     \A c \in Contigs, p \in Positions, cf \in Configs :
         vcf[c][p] # NoSite =>
-            LET cl == Class(vcf[c][p], cf.sel, cf.ign) IN
+            LET cl == IF cf.ph THEN Class(vcf[c][p], cf.sel, cf.ign) ELSE UClass(vcf[c][p], cf.ign) IN
             /\ cl = "store" => Store(vcf[c][p], cf)
             /\ cl = "drop" => ~Store(vcf[c][p], cf)
 
